@@ -226,3 +226,38 @@ func domBlockWO(nodeCtx int) *types.WorkObject {
 	}
 	return types.NewWorkObject(wh, body, nil)
 }
+
+// A SHA / Scrypt work share that gets through the whole gossip validator: the donor coinbase
+// commits to the share's seal hash, the donor header to the coinbase's merkle root, the share
+// difficulty is 1 (any pow hash meets the target) and the primary coinbase is external, which
+// exempts the share from the template-signature check (IsShaOrScryptShareWithInvalidAddress).
+func deepShareWO(id types.PowID) *types.WorkObject {
+	txs := types.Transactions(richTxs())
+	one := types.NewPowShareDiffAndCount(big.NewInt(1), big.NewInt(1), big.NewInt(0))
+	wh := types.NewWorkObjectHeader(h(50), h(51), big.NewInt(1234), big.NewInt(123456789), big.NewInt(int64(params.KawPowForkBlock)+1), sha(txs),
+		types.EncodeNonce(77), 0, 1700000001, loc00, addrOut(9), []byte{0, 1, 2, 3}, nil, one, one, big.NewInt(1000), big.NewInt(1001), big.NewInt(10000))
+	seal := wh.SealHash()
+	commit := seal
+	aux2 := []byte{}
+	if id == types.Scrypt {
+		doge := h(48)
+		aux2 = doge.Bytes()
+		commit = types.CreateAuxMerkleRoot(doge, seal)
+	}
+	tx := types.NewAuxPowCoinbaseTx(id, 800000, coinbaseOut(), commit, 1699999999)
+	branch := [][]byte{h(46).Bytes(), h(47).Bytes()}
+	root := types.CalculateMerkleRoot(id, tx, branch)
+	var hdr *types.AuxPowHeader
+	if id == types.Kawpow {
+		hdr = types.NewAuxPowHeader(&types.RavencoinBlockHeader{Version: 4, HashPrevBlock: h(40), HashMerkleRoot: root, Time: 1700000000,
+			Bits: 0x1d00ffff, Nonce64: 367899, Height: 298899, MixHash: h(42)})
+	} else {
+		hdr = types.NewBlockHeader(id, 0x20000000, h(43), root, 1700000000, 0x1d00ffff, 12345, 800000)
+	}
+	wh.SetAuxPow(types.NewAuxPow(id, hdr, aux2, make([]byte, 64), branch, tx))
+	body := types.NewWoBody(richHeader(), txs, nil, nil, types.BlockManifest{}, common.Hashes{})
+	return types.NewWorkObject(wh, body, nil)
+}
+
+// the node's current header for the gossip validator: same height, share difficulties 1
+func currentHeaderWO() *types.WorkObject { return deepShareWO(types.SHA_BTC) }
